@@ -19,7 +19,8 @@ EXPLANATION = (
     "raw line (defect F28: the number sign doubled on every pass)."
     " (R5) append-buffer discipline of the GFF/GTF line readers incl. the blank-line skip loop."
     " (R6) copy before consume for the BED field scanner."
-    " (R7) every BED read_record_N resets the line buffer and the extra-column bounds of the reused destination on all success paths (field-path reset rule, interprocedural through helpers that are handed a parent object).")
+    " (R7) every BED read_record_N resets the line buffer and the extra-column bounds of the reused destination on all success paths (field-path reset rule, interprocedural through helpers that are handed a parent object)."
+    " (R8) numeric columns are formatted from their own type: no unproven narrowing `as` cast (int to smaller int, float to int) in the GFF / GTF / BED writers.")
 ASSUMPTIONS = ["percent-encoding crate semantics", "reader delimiter constants are the named DELIMITER/SEPARATOR consts (floor-checked)"]
 NOT_DECIDED = ["equality of arbitrary UTF-8 values; BED optional-column values; directive round trip"]
 
